@@ -19,6 +19,7 @@ import shutil
 import sys
 import tarfile
 import tempfile
+import time
 import zipfile
 
 from harness import core
@@ -381,6 +382,13 @@ def execute(sc, faults=()):
     root = tempfile.mkdtemp(prefix="c08_")
     # directory and file names are part of the scenario: glob metacharacters are ordinary characters there
     logdir = os.path.join(root, *sc.get("dir", "logs").split("/"))
+    # a second directory tree with files of the same relative names: what a relative path would resolve to
+    # after the process changed its working directory (must never be touched)
+    elsewhere = os.path.join(root, "elsewhere")
+    decoy = {}
+    saved_cwd = os.getcwd()
+    saved_tz = os.environ.get("TZ")
+    env = sc.get("env") or {}
     shim = Shim()
     shim.fault_at = {k: getattr(errno_mod, e) for k, e in faults}
     state = {"clk": 0, "ct1": 0, "ct2": 0, "rot": False, "msg": 0}
@@ -399,6 +407,13 @@ def execute(sc, faults=()):
         ids, _ = ids_of_bytes(sc, data) if not base.endswith(ext) or sc.get("comp") not in CEXTS else \
             ids_of_bytes(sc, read_archive(sc, path)[2])
         if phase == "retention":
+            age_limit = (sc.get("real") or {}).get("retention_seconds")
+            if age_limit is not None and env.get("now") is not None:
+                true_age = env["now"] - os.stat(path).st_mtime
+                if true_age < age_limit:
+                    ex.monitors.append(("no_message_lost", "age retention (%s s) deleted %s although it was written "
+                                        "only %d s before (TZ=%s)" % (age_limit, base, true_age, env.get("tz")), len(ex.ops)))
+                    return          # not a deliberate deletion: its messages count as lost
             ex.deleted.update(ids)
         elif sc.get("comp") in CEXTS and base.endswith(ext):
             pass  # an archive (debris) deleted by the sink itself: the no-loss monitors judge the consequences
@@ -441,6 +456,8 @@ def execute(sc, faults=()):
                     capture=True, patchers=[], extra={})
     stem = sc.get("stem", "app")
     template = os.path.join(logdir, stem + "_{time}.log" if sc["timed"] else stem + ".log")
+    if sc.get("rel"):
+        template = os.path.relpath(template, root)      # the sink is given a path relative to the cwd
     kwargs = {"format": "{message}", "catch": True, "encoding": sc.get("encoding", "utf8")}
     real = sc.get("real") or {}
     if real.get("rotation") is not None:
@@ -469,7 +486,25 @@ def execute(sc, faults=()):
     saved_err = sys.stderr
     try:
         make_pre(sc, logdir)
+        if sc.get("rel"):
+            os.makedirs(elsewhere)
+            os.chdir(root)
+            dd = os.path.join(elsewhere, os.path.relpath(logdir, root))
+            os.makedirs(dd)
+            for j, n in enumerate([("b", 0), ("A", ("b", 0)), ("R", 5, 1, ("b", 0))]):
+                if n[0] == "b" and sc["timed"]:
+                    continue
+                path = os.path.join(dd, real_name(sc, n))
+                with open(path, "wb") as f:
+                    f.write(b"P%d\n" % (900 + j))
+                decoy[path] = b"P%d\n" % (900 + j)
+        if env.get("tz"):
+            os.environ["TZ"] = env["tz"]
+            time.tzset()
         shim.install()
+        if env.get("now") is not None:
+            import loguru._file_sink as fsm_
+            fsm_.datetime = _FrozenDatetimeModule(env["now"])
         for idx, op in enumerate(sc["ops"]):
             kind = op[0]
             k0 = shim.k
@@ -518,6 +553,13 @@ def execute(sc, faults=()):
                 elif kind == "r":
                     if hid[0] is not None:
                         raise RuntimeError("scenario: restart with a live handler")
+                elif kind == "cd":
+                    os.chdir(elsewhere)      # the application changes its working directory
+                elif kind == "age":
+                    # time passes: every file of the directory was last written op[1] seconds before `now`
+                    for fname in os.listdir(logdir) if os.path.isdir(logdir) else []:
+                        t = env["now"] - op[1]
+                        os.utime(os.path.join(logdir, fname), (t, t))
                 elif kind in ("xd", "xr"):
                     path = os.path.join(logdir, real_name(sc, ("b", op[1])))
                     if os.path.isfile(path):
@@ -546,6 +588,8 @@ def execute(sc, faults=()):
                                                        ",".join(ret) or "-"))
             elif kind == "r":
                 model_ops.append("r")
+            elif kind in ("cd", "age"):
+                model_ops.append("xd:o_999")     # nothing happens to the sink or its directory
             else:
                 model_ops.append("%s:b_%d" % (kind, op[1] if sc["timed"] else 0))
             if acked_id is not None:
@@ -555,6 +599,20 @@ def execute(sc, faults=()):
             ex.ops.append(rec)
             # ---- direct monitors on the real directory (model-independent)
             run_monitors(sc, ex, idx, rec, pre_ids, env_deleted, bool(fault_at))
+            for path, data in decoy.items():
+                try:
+                    with open(path, "rb") as f:
+                        now_ = f.read()
+                except OSError:
+                    now_ = None
+                if now_ != data:
+                    ex.monitors.append(("rename_never_overwrites", "a file OUTSIDE the sink's directory (same relative "
+                                        "name under the new working directory) was %s: %s"
+                                        % ("removed" if now_ is None else "modified", os.path.relpath(path, root)), idx))
+            listing = sorted(os.listdir(os.path.dirname(next(iter(decoy)))) ) if decoy else []
+            if decoy and listing != sorted(os.path.basename(p_) for p_ in decoy):
+                ex.monitors.append(("rename_never_overwrites", "the sink created files outside its directory after a "
+                                    "chdir: %r" % listing, idx))
             # usability: a call in which no injected fault fired must succeed (the sink recovered) – this
             # includes the call after a failed file.close() (finding F26, fixed in e6154e8)
             if kind == "w" and not fired and res != "ok" and not res.startswith("RAISED"):
@@ -574,12 +632,37 @@ def execute(sc, faults=()):
     finally:
         sys.stderr = saved_err
         shim.uninstall()
+        os.chdir(saved_cwd)
+        if env.get("tz"):
+            if saved_tz is None:
+                os.environ.pop("TZ", None)
+            else:
+                os.environ["TZ"] = saved_tz
+            time.tzset()
         shutil.rmtree(root, ignore_errors=True)
     ex.nprims = shim.k
     bits = "".join("1" if j in fault_at else "0" for j in range(max(list(fault_at) + [-1]) + 1)) or "-"
     pre = ";".join("%s=%s" % (n, pre_entry_enc(sc, n, k, ids)) for n, k, ids in sc.get("pre", [])) or "-"
     ex.line = "run %s %s 0 %s %s" % (cfg_token(sc), pre, bits, " ".join(model_ops))
     return ex
+
+
+class _FrozenDatetimeModule:
+    """stands for the `datetime` module inside loguru._file_sink: `datetime.datetime.now()` is frozen at a chosen
+    instant (everything else is the real module; local-time conversions follow the process's TZ)"""
+
+    def __init__(self, now):
+        frozen = now
+
+        class datetime(pydt.datetime):  # noqa: N801
+            @classmethod
+            def now(cls, tz=None):
+                return cls.fromtimestamp(frozen, tz)
+
+        self.datetime = datetime
+
+    def __getattr__(self, name):
+        return getattr(pydt, name)
 
 
 def enc_call(sc, logdir, cl):
@@ -632,7 +715,7 @@ def run_monitors(sc, ex, idx, rec, pre_ids, env_deleted, faulted_run):
     for a, b in zip(runs, runs[1:]):
         if b[0] <= a[-1] and not (set(a) <= set(b) or set(b) <= set(a)):
             ex.monitors.append(("order_preserved", "files interleave: %r / %r" % (a[:10], b[:10]), idx))
-    if not faulted_run and rec["op"][0] == "w" and rec["res"] != "ok":
+    if not faulted_run and rec["op"][0] in ("w", "s", "i") and rec["res"] != "ok":
         ex.monitors.append(("sink_usable_after_any_fault", "fault-free run: call #%d reported %s" % (idx, rec["res"]), idx))
 
 
@@ -700,6 +783,9 @@ def base_sc(**kw):
 # negated classes, unbalanced brackets) are ordinary characters of a path
 DIRS = ["logs", "[worker-1]", "lo*gs", "l?gs/sub[0-9]", "[[]x]", "a[!b]c", "un[balanced", "logs"]
 STEMS = ["app", "a[p]p", "app*", "ap?p", "[app]", "app[1", "app"]
+# file-name length and script are part of "every file": long ASCII, long CJK (3 bytes per character in UTF-8),
+# mixed; the rotated name adds the 27-character date, the archive its extension (file systems allow 255 bytes)
+LONG_STEMS = ["service-" + "x" * 104, "日志记录" * 10, "журнал-" + "ü" * 40 + "-application-log"]
 
 
 def with_names(scs, shift=0):
@@ -740,6 +826,18 @@ def _curated():
                        ret=["count", 3], ops=[W(), W(1), W(1), W(), S()]))
     out.append(base_sc(comp="tar.bz2", ret=["count", 0], payload="uni", ops=[I(), W(), W(1), W(), S()]))
     out.append(base_sc(comp="tar.xz", payload="uni", ops=[W(), W(), W(1, 0, 5, 5), W(1, 0, 5, 5), S(0, 5, 5)]))
+    out += chdir_scenarios(["bz2", None])
+    return out
+
+
+def chdir_scenarios(comps):
+    """the sink is given a RELATIVE path and the application changes its working directory between add() and the
+    end of the file's life (files of the same relative names exist under the new cwd); no rotation / lazy creation
+    / retention after the chdir (new files legitimately follow the cwd there)"""
+    out = []
+    for i, comp in enumerate(comps):
+        out.append(base_sc(rot=(i % 2 == 1), rel=True, comp=comp,
+                           ops=[I(), W(), W(1 if i % 2 == 1 else 0), ["cd"], W(), W(), S()]))
     return out
 
 
@@ -753,6 +851,18 @@ def real_policy_scenarios(quick):
         base_sc(comp=None, watch=True, real={"rotation": "45 B", "retention": 1}, ret=["count", 1],
                 ops=[W() for _ in range(n // 2)] + [["xd", 0]] + [W() for _ in range(n // 2)] + [S()]),
     ]
+    # age retention in zones with daylight-saving switches: files last written shortly before / after a switch,
+    # ages on both sides of the configured limit ("time passes" = the `age` operation); a file may only be
+    # deleted when it really is older than the limit
+    zones = [("CET-1CEST,M3.5.0,M10.5.0/3", 1616895000),      # 2021-03-28 01:30Z, 30 min after spring forward
+             ("CET-1CEST,M3.5.0,M10.5.0/3", 1635643800),      # 2021-10-31 01:30Z, 30 min after falling back
+             ("AEST-10AEDT,M10.1.0,M4.1.0/3", 1633192200),    # 2021-10-02 16:30Z, southern spring forward
+             ("UTC0", 1616895000)]
+    for zi, (tz, now) in enumerate(zones if not quick else zones[:2]):
+        out.append(base_sc(comp=(None if zi % 2 == 0 else "gz"), env={"tz": tz, "now": now},
+                           real={"retention": "1 hour", "retention_seconds": 3600}, ret=["count", 0],
+                           ops=[W(), W(1), W(), ["age", 2400], W(1), W(), ["age", 3300], W(1), ["age", 4000], W(1),
+                                W(), S()]))
     if not quick:
         out.append(base_sc(timed=True, comp="tar.gz", real={"rotation": "60 B", "retention": "0 seconds"}, ret=["count", 0],
                            ops=[W(0, k) for k in range(n)] + [S(n)]))
@@ -768,7 +878,7 @@ def gen_scenario(rng):
                  payload=rng.choice(["ascii", "ascii", "uni"]))
     if rng.chance(60):
         sc["dir"] = rng.choice(DIRS)
-        sc["stem"] = rng.choice(STEMS)
+        sc["stem"] = rng.choice(STEMS + LONG_STEMS[:1]) if rng.chance(85) else rng.choice(LONG_STEMS)
     if rng.chance(45):
         sc["ret"] = ["count", rng.below(4)] if rng.chance(75) else ["call", rng.range(1, 2)]
     clk = rng.below(3)
@@ -845,6 +955,10 @@ def explore(ctx, scenarios, pairs, errno_sweep=1):
         def eno(k):
             return ERRNOS[(k + si) % len(ERRNOS)]
 
+        if sc.get("rel"):
+            # relative path + chdir: fault-free only (after a fault the sink re-creates its file lazily, and a
+            # relative path then legitimately resolves against the new working directory)
+            continue
         for k in range(n):
             f = ((k, eno(k)),)
             execs.append((sc, f, execute(sc, f)))
